@@ -89,6 +89,17 @@ theorem C01.dispatch_correct {K : Type} [CommRing K] [DecidableEq K]
     simp [h12, ho1, ho2] <;>
     split_ifs <;> simp_all [Mem.write, scalPrim, axpyPrim] <;> grind
 
+/-- The extracted small-size branch (direct NumPy expressions, the right-hand side evaluated
+before the assignment) is correct for all alias patterns, scalars and contents; it never
+recurses. Terms the code omits (`b == 0`: `out = a * x1`) are omitted in the model too. -/
+theorem C01.small_correct {K : Type} [CommRing K] [DecidableEq K]
+    (g : Bool) (self : Args → K → K → Mem K → Option (Mem K))
+    (A : Args) (a b : K) (m : Mem K) :
+    ∃ m', exec g self progSmall A a b m = some m' ∧ Spec A a b m m' := by
+  obtain ⟨x1, x2, out⟩ := A
+  simp only [progSmall, exec, Cond.eval, Spec]
+  split_ifs <;> simp_all [Mem.write] <;> grind
+
 theorem C01.regime_blas (s : Nat) (bo : Bool)
     (h : regime thrSmall thrMedium s bo = .blas) : bo = true := by
   unfold regime at h
@@ -111,9 +122,7 @@ theorem C01.implF_step {K : Type} [CommRing K] [DecidableEq K]
     · intro buf h; simp [Mem.write, h]
   · rw [if_neg hz]
     cases hreg : regime params.thrSmall params.thrMedium size (params.blasTree.eval d)
-    · refine ⟨_, rfl, ?_, ?_⟩
-      · intro i; simp [direct, Mem.write]
-      · intro buf h; simp [direct, Mem.write, h]
+    · exact C01.small_correct false _ A a b m
     · exact C01.dispatch_correct _ _ A a b m (fun _ hb => hrec hb _ _ m)
     · have hb : blasTree.eval d = true := C01.regime_blas size _ hreg
       obtain ⟨m', e, hs⟩ := C01.dispatch_correct false (lincombImplF params size d f) A a b m
